@@ -30,6 +30,14 @@ CHECKS = {
    text="For PRNG values around every threshold and every supported write command/argument position: what reaches the backend is the original or header+stream decoding (by golang/snappy called directly) to the original and shorter; keys/fields untouched; read-back through GET/MGET/GETSET/HGET/HMGET/HGETALL/HVALS is byte-identical, also after a second filter pass (resend), after real MOVED and ASK redirections, from 1-32 concurrent connections (pooled buffers) and after compression is switched off/on; banned commands are rejected with no backend arrival.",
    note="Trusted: github.com/golang/snappy decoder, documented 6-byte header, simulated nodes' stores. Values starting with the header are excluded as the statement says.",
    ref="DESIGN.md section 4 C13"),
+ "C18": dict(level="exploration", technique="cursor codec round-trip oracle + iteration monitor over simulated nodes with scripted cursor sequences (termination bound, key coverage, per-node visit log, argument pass-through), child-death detection",
+   text="parse(gen(i,c))==(i,c) and monotonicity for boundary and PRNG pairs (c < 2^48 incl. >= 2^47); full iterations from cursor 0 over 1-12 nodes with arbitrary scripted node cursors must terminate within sum(script lengths)+2 calls, return exactly the stored keys, visit each node's script once in address order with MATCH/COUNT/TYPE bytes unchanged; cursors past the last node give [0,[]], malformed cursors one error, proxy stays alive.",
+   note="Trusted: scripted SCAN handlers of the simulated nodes. Node indices >= 32768 are outside the workload (need 32768 seed hosts).",
+   ref="DESIGN.md section 4 C18"),
+ "C20": dict(level="exploration", technique="conservation equations over the public stats store at detected quiescence (nodes idle + two identical dumps), gauge range sampled during runs; fixed fault scenario list x PRNG parameters",
+   text="After each scenario (normal/multi-key, invalid, MOVED/ASK redirected, backend reset, backend silent then closed, connection limit, client disconnect with requests in flight, stop with open connections; TCP: traffic, dial failures, host removal, limit, stop) the equations cx_active==0, cx_total==cx_destroy_total, rq_total==success+failure, per-command total==success+error hold for downstream and upstream, and no gauge wraps below zero at any sample.",
+   note="Trusted: quiescence detector (simulated nodes report received==answered; two identical stat dumps >= 50 ms apart); a dump that never stabilises is inconclusive, not a violation.",
+   ref="DESIGN.md section 4 C20"),
 }
 NOT_BUILT = "check not built yet in this session (design in DESIGN.md section 4)"
 
